@@ -113,12 +113,68 @@ def region_rule(rep, f):
            "%s:%s" % (bad[0][1], bad[0][2]) if bad else "src/xercesc/util/regx/RegularExpression.cpp")
 
 
+def addrange_rule(rep):
+    from ..engines import guard
+    rep.rule("C11.g", "no range of a character class is dropped: on every normal path through RangeToken::addRange the new range's end "
+             "is written into fRanges (stored as a new pair or as the extended end of an existing pair), or the path has passed the "
+             "test that an existing range already contains it (CFG must-dataflow: generated by a store of the end value into "
+             "fRanges and by the true edge of `fRanges[i+1] >= end`) — a path that falls through the sorted-insert loop without "
+             "either silently removes part of the class (`[a-ec-z]` lost `f`..`z`)")
+    tu = os.path.join(core.REPO, "src/xercesc/util/regx/RangeToken.cpp")
+    g = core.run_xa([tu], cfg=r"^RangeToken::addRange$", flat=False)
+    cfg = guard.Cfg(g.cfg("RangeToken::addRange"))
+    # the local that carries the upper bound of the new range: assigned from `end` where start <= end holds
+    ends = set()
+    for bid, blk in cfg.blocks.items():
+        t = blk.get("term")
+        c = t and t.get("cond")
+        if c and c[0] == "b" and c[1] == "<=" and c[2][0] == "p" and c[2][1] == 0 and c[3][0] == "p" and c[3][1] == 1 and blk["succ"][0] is not None:
+            for el in cfg.blocks[blk["succ"][0]]["els"]:
+                x = el.get("x")
+                if x and x[0] == "b" and x[1] == "=" and x[2][0] == "l" and x[3][0] == "p" and x[3][1] == 1:
+                    ends.add(x[2][1])
+    if len(ends) != 1:
+        raise AnalysisBroken("RangeToken::addRange: cannot identify the local holding the upper bound of the new range (%s)" % sorted(ends))
+    E = ["l", list(ends)[0]]
+
+    def is_ranges(x):
+        return isinstance(x, list) and x and x[0] == "x" and x[1] == ["f", "RangeToken::fRanges"]
+
+    def gen_el(el):
+        x = el.get("x")
+        return bool(x) and x[0] == "b" and x[1] == "=" and is_ranges(x[2]) and x[3] == E
+
+    def gen_edge(p, k):
+        t = cfg.blocks[p].get("term")
+        c = t and t.get("cond")
+        return bool(c) and k == 0 and c[0] == "b" and c[1] == ">=" and is_ranges(c[2]) and c[3] == E
+    stores = [1 for _, _, el in cfg.elements() if gen_el(el)]
+    rep.floor("C11.g", len(stores), 3)
+    st = guard.must_state(cfg, gen_el=gen_el, gen_edge=gen_edge)
+    # normal exits: the exit block's predecessors
+    bad = []
+    for p in cfg.preds[cfg.exit]:
+        if cfg.throws(p):
+            continue
+        ok = st(p, len(cfg.blocks[p]["els"]))
+        if not ok and gen_edge(p, [k for k, sx_ in enumerate(cfg.blocks[p]["succ"]) if sx_ == cfg.exit][0]):
+            ok = True
+        if not ok:
+            bad.append(cfg.line_of(p) or 0)
+    rep.ob("C11.g", "RangeToken::addRange", not bad,
+           "every normal path records the range or has found it contained (%d stores of the end value)" % len(stores) if not bad else
+           "RangeToken::addRange: a normal path reaches the end of the function (via line %s) without storing the new range and without "
+           "having found it contained in an existing one — the range is dropped from the character class" % sorted(set(bad)),
+           "src/xercesc/util/regx/RangeToken.cpp:%s" % (sorted(set(bad))[0] if bad else cfg.line_of(cfg.entry) or 0))
+
+
 def run(rep):
     f = core.library_facts()
     rep.units.update(os.path.relpath(t, core.REPO) for t in f.tus)
     block_rule(rep)
     shift_table_rule(rep)
     region_rule(rep, f)
+    addrange_rule(rep)
     rep.rule("C11.d", "pure matching: RegularExpression::matches/tokenize/replace and every RegularExpression member they reach assign no "
              "member of the compiled expression — the answer cannot depend on earlier uses of the same compiled expression")
     C17.pure_match_rule(rep, f, "C11.d")
